@@ -75,7 +75,7 @@ Section Run.
 
   (* the state a run of events E (consumer c0 before) ends in *)
   Definition Resume (c0 : cons) (E : list event) (a : block) (s' : fstate) (Fin' : list block) (S' : cstack) (c' : cons) : Prop :=
-    Post a s' Fin' S' c' /\ cons_fold c0 E = Some c' /\ MidFacts c0 E a Fin' s' /\ FinRooted a Fin'.
+    Post a s' Fin' S' c' /\ cons_fold c0 E = Some c' /\ MidFacts c0 E a Fin' s' /\ FinRooted a Fin' /\ IrrFacts U E a Fin'.
 
   Lemma run_post : forall h a s Fin S c, Post a s Fin S c -> FinRooted a Fin -> (forall b, In b h -> In b U) ->
     exists s' F' S' c',
@@ -85,17 +85,18 @@ Section Run.
   Proof.
     induction h as [|b h IH]; intros a s Fin S c HP HFR Hh.
     - exists s, [], S, c. rewrite app_nil_r. split; [apply run_ok_nil|]. split.
-      + split; [exact HP|]. split; [reflexivity|]. split; [apply mid_nil | exact HFR].
+      + split; [exact HP|]. split; [reflexivity|]. split; [apply mid_nil|]. split; [exact HFR | apply irr_nil].
       + split; [exact I|]. split; [constructor | auto].
     - destruct (post_step U cfg Hnofail Hnew Hundo Hirr Hincl U_id U_uniq U_up D_decl a s Fin S c b HP (Hh b (or_introl eq_refl)))
-        as (s1 & evs & Fnew & S1 & c1 & Hstep & HP1 & Hc1 & HlF & HFU & HM & Hpres1).
+        as (s1 & evs & Fnew & S1 & c1 & Hstep & HP1 & Hc1 & HlF & HFU & HM & Hpres1 & HIr).
       destruct (IH a s1 (Fin ++ Fnew) S1 c1 HP1 (fin_rooted_app a Fin Fnew HFR HlF) (fun x Hx => Hh x (or_intror Hx)))
-        as (s' & F2 & S' & c' & HR & (HP' & Hc' & HM' & HFR') & Hl2 & HF2 & Hpres2).
+        as (s' & F2 & S' & c' & HR & (HP' & Hc' & HM' & HFR' & HIr') & Hl2 & HF2 & Hpres2).
       destruct (run_ok_cons cfg s b h s1 evs s' Hstep HR) as [HR' HE].
       exists s', (Fnew ++ F2), S', c'. rewrite HE, app_assoc.
       split; [exact HR'|]. split; [|split].
-      + split; [exact HP'|]. split; [rewrite cfold_app, Hc1; exact Hc'|]. split; [|exact HFR'].
-        apply (mid_compose U _ _ c1); [exact Hc1 | apply (mid_extend U cfg U_id U_uniq U_up D_decl _ _ _ _ _ s1); assumption | exact HM'].
+      + split; [exact HP'|]. split; [rewrite cfold_app, Hc1; exact Hc'|]. split; [|split; [exact HFR'|]].
+        * apply (mid_compose U _ _ c1); [exact Hc1 | apply (mid_extend U cfg U_id U_uniq U_up D_decl _ _ _ _ _ s1); assumption | exact HM'].
+        * apply irr_compose; [apply irr_extend; assumption | exact HIr'].
       + apply linked_app_iff. split; [exact HlF|]. rewrite <- libblk_tip. exact Hl2.
       + split; [|intros B1 H1; apply Hpres2; apply Hpres1; exact H1].
         apply Forall_app. split; [exact HFU|].
@@ -114,16 +115,17 @@ Section Run.
     induction h as [|b h IH]; intros s HP Hh.
     - exists s. split; [apply run_ok_nil|]. left. auto.
     - destruct (pre_step2 U cfg Hnofail Hnew Hundo Hirr Hhold Hincl U_id U_uniq U_up D_decl s b HP (Hh b (or_introl eq_refl)))
-        as [(s1 & Hstep & HP1 & _)|(a & s1 & evs & Fin & S1 & c1 & Hstep & HP1 & Hc1 & HM1 & HFR1)].
+        as [(s1 & Hstep & HP1 & _)|(a & s1 & evs & Fin & S1 & c1 & Hstep & HP1 & Hc1 & HM1 & HFR1 & HIr1)].
       + destruct (IH s1 HP1 (fun x Hx => Hh x (or_intror Hx))) as (s' & HR & HPh).
         destruct (run_ok_cons cfg s b h s1 [] s' Hstep HR) as [HR' HE].
         exists s'. split; [exact HR'|]. rewrite HE. exact HPh.
       + destruct (run_post h a s1 Fin S1 c1 HP1 HFR1 (fun x Hx => Hh x (or_intror Hx)))
-          as (s' & F2 & S' & c' & HR & (HP' & Hc' & HM' & HFR') & Hl2 & HF2 & Hpres2).
+          as (s' & F2 & S' & c' & HR & (HP' & Hc' & HM' & HFR' & HIr') & Hl2 & HF2 & Hpres2).
         destruct (run_ok_cons cfg s b h s1 evs s' Hstep HR) as [HR' HE].
         exists s'. split; [exact HR'|]. right. exists a, (Fin ++ F2), S', c'. rewrite HE.
-        split; [exact HP'|]. split; [rewrite cfold_app, Hc1; exact Hc'|]. split; [|exact HFR'].
-        apply (mid_compose U _ _ c1); [exact Hc1 | apply (mid_extend U cfg U_id U_uniq U_up D_decl _ _ _ _ _ s1); assumption | exact HM'].
+        split; [exact HP'|]. split; [rewrite cfold_app, Hc1; exact Hc'|]. split; [|split; [exact HFR'|]].
+        * apply (mid_compose U _ _ c1); [exact Hc1 | apply (mid_extend U cfg U_id U_uniq U_up D_decl _ _ _ _ _ s1); assumption | exact HM'].
+        * apply irr_compose; [apply irr_extend; assumption | exact HIr'].
   Qed.
 
   Theorem fk_history h : (forall b, In b h -> In b U) ->
